@@ -10,10 +10,12 @@ THEOREMS = [
     "GmqttVerif.Fed.route_retained_all",
     "GmqttVerif.Fed.receiver_no_reforward",
     "GmqttVerif.Fed.received_message_published_once",
+    "GmqttVerif.Fed.federation_delivery_exact",
     "GmqttVerif.Fed.shared_one_in_federation_refuted",
     "GmqttVerif.Fed.shared_lost_refuted",
     "GmqttVerif.Fed.shared_one_in_federation_partial",
-    "GmqttVerif.Fed.remote_retained_clear_refuted",
+    "GmqttVerif.Fed.remote_retained_clear",
+    "GmqttVerif.Fed.remote_retained_clear_as_is_refuted",
     "GmqttVerif.Fed.remote_retained_set",
 ]
 COMPS = ["fedroute", "fedsession"]
@@ -225,13 +227,10 @@ def pred_recv(ops, out):
                         + (f": the remote clear of {bad} was stored as an empty retained message (F35)" if bad and all(got[k] == '0' for k in bad) else ""))
     return None
 
-def rec_f35(info):
-    return "F35" in (info.get("why") or "")
-
 def rec_f36(info):
     return "F36" in (info.get("why") or "")
 
-RECOGNISERS = {"f35": rec_f35, "f36": rec_f36}
+RECOGNISERS = {"f36": rec_f36}
 
 def streams(tier):
     k = 1 if tier == "quick" else 20
@@ -253,7 +252,9 @@ RULE = ("fedroute: random federation trees (1-3 peers + occasionally a node with
         "re-derives the expected node set with an independent MQTT matcher. fedroute-groups additionally counts, per matching share group, the "
         "nodes of the federation that will serve it (F36). fedrecv-retained: Message events through the real EventStream loop, retained store "
         "compared with last-value-per-topic semantics (F35). non-trivial = a publish forwarded to a proper non-empty subset of the peers")
-ASSUME = ["topic names of published messages are valid (no wildcard levels); the empty topic name is compared with the model only (F18)",
+ASSUME = ["matching is Topic.MatchesTopic (Model/Topic.lean; C02 matchTopic_exact ties it to mem.TrieDB), wrapped by Fed.subMatches only for the empty topic name",
+          "federation_delivery_exact: messageToEvent/eventToMessage preserve the message; each queued Message event is applied by the peer exactly once (C16)",
+          "topic names of published messages are valid (no wildcard levels); the empty topic name is compared with the model only (F18)",
           "the receiving node serves each of its matching local share groups once and each non-shared subscriber once (C01/C11 on Publisher.Publish)",
           "Publisher.Publish does not invoke OnMsgArrived (server/publish_service.go calls deliverMessage directly) — structural, see receiver_no_reforward",
           "the federation tree content equals the set of entries added/removed through Subscribe/Unsubscribe (no UnsubscribeAll in these streams; F19)"]
